@@ -210,7 +210,18 @@ class Engine:
                 fields.add(n.attr)
             elif isinstance(n, ast.Name) and n.id != me and isinstance(n.ctx, ast.Load):
                 names.add(n.id)
-        names -= {"hash", "tuple", "frozenset", "sorted", "str", "int", "id", "len"}
+        names -= {"hash", "tuple", "frozenset", "sorted", "str", "int", "id", "len", "repr"}
+        # str(self) / repr(self) / f"{self}" read whatever __str__/__repr__ read
+        for n in ast.walk(expr):
+            via = None
+            if isinstance(n, ast.Call) and dotted(n.func) in ("str", "repr", "format") and n.args and isinstance(n.args[0], ast.Name) and n.args[0].id == me:
+                via = "__repr__" if dotted(n.func) == "repr" else "__str__"
+            elif isinstance(n, ast.FormattedValue) and isinstance(n.value, ast.Name) and n.value.id == me:
+                via = "__repr__" if n.conversion == 114 else "__str__"
+            if via and init.cls is not None:
+                _, fi = self.P.lookup_attr(init.cls, via)
+                if isinstance(fi, FuncInfo):
+                    fields |= set(self.self_reads(fi, init.cls))
         return fields, names
 
     # -- attributes read by behaviour methods ---------------------------------------------
